@@ -137,7 +137,7 @@ const char* String::findLastOf(const char* chars) const {return String::findLast
 
 String& String::replace(const String& needle, const String& replacement)
 {
-  const char* p = data->str;
+  const char* p = *this;
   const char* match = strstr(p, needle);
   if(!match)
     return *this;
